@@ -1,9 +1,10 @@
 """C10 -- Removal is complete and precise, and existence reports tell the truth.
 
 Obligations: coq/Props/C10.v (theorems over Model/Removal.v for every state / every history).
-Tie K: random histories (puts with chosen ids incl. re-puts of unstored / purged ids, tagging, certification, chains,
-       every pruneDatasets flag combination, removeRuns with and without unstore, registry.removeDatasets, the two
-       halves of an unstore run separately, EXTERNAL deletion of artifacts, invalid arguments) on a real Butler
+Tie K: random histories (puts with chosen ids incl. re-puts of unstored / purged ids, TWO-REF INGESTS of one file (shared
+       artifacts), tagging, certification, chains, every pruneDatasets flag combination, removeRuns with and without unstore,
+       registry.removeDatasets, the two halves of an unstore run separately (Datastore.trash with a list AND with a single
+       ref), EXTERNAL deletion of artifacts, invalid arguments) on a real Butler
        (SQLite + POSIX file datastore) in worker subprocesses; after EVERY step the outcome class and, for EVERY
        dataset id of the universe and EVERY collection, Butler.exists (full_check on/off, plain ref and a ref carrying
        datastore records), _exists_many, stored, stored_many, get, get_dataset, getDatasetLocations, query_datasets,
@@ -25,6 +26,7 @@ import json
 import os
 import random
 import re
+import time
 
 from harness.common import VERIF, Ctx, parallel_workers
 
@@ -37,6 +39,11 @@ ERRCODE = {"Ok": 0, "Err:Conflict": 2, "Err:MissingCollection": 3, "Err:Collecti
 KINDN = {"RUN": "Run", "TAGGED": "Tagged", "CHAIN": "Chain", "CALIB": "Calib"}
 KCODE = {"RUN": 1, "TAGGED": 2, "CHAIN": 3, "CALIB": 4}
 FLAG = ("RECORDED", "DATASTORE", "_ARTIFACT")
+NDATA = 3                      # data IDs per dataset type (harness/impl/c10_impl.py NDATA, Model/Removal.v `sib`)
+
+
+def sib(k):
+    return NDATA * (k // NDATA) + (k + 1) % NDATA
 
 
 # =================================================================================================
@@ -89,10 +96,22 @@ class Gen:
             self._forget_ds(gone)
             for r in rs:
                 del self.colls[r]
-        elif k == "Trash":
-            mv = set(op[1]) & self.stored
+        elif k in ("Trash", "Trash1"):
+            mv = (set(op[1]) if k == "Trash" else {op[1]}) & self.stored
             self.stored -= mv
             self.pending |= mv
+        elif k == "Ingest":
+            _, d1, d2, r, key = op
+            if self.colls.get(r) != "RUN" or d1 == d2 or ({d1, d2} & (self.stored | self.pending)):
+                return
+            for d, kk in ((d1, key), (d2, sib(key))):
+                if d in self.ds:
+                    if self.ds[d] != (r, kk):
+                        return
+                elif (r, kk) in self.ds.values():
+                    return
+            self.ds[d1], self.ds[d2] = (r, key), (r, sib(key))
+            self.stored |= {d1, d2}
         elif k == "EmptyTrash":
             self.pending.clear()
         elif k == "RegRemove":
@@ -143,7 +162,7 @@ def gen_history(rng: random.Random, length: int):
             if rng.random() < 0.07:
                 ch.append(rng.randrange(NCOLL))
             op = ["SetChain", c, ch]
-        elif x < 0.30 or (len(g.ds) < 2 and x < 0.55):
+        elif x < 0.29 or (len(g.ds) < 2 and x < 0.55):
             y = rng.random()
             if y < 0.2 and g.ds:                          # re-put of an existing id (restores an unstored one / conflicts)
                 d = rng.choice(sorted(g.ds))
@@ -162,9 +181,26 @@ def gen_history(rng: random.Random, length: int):
                 d = rng.choice(free) if free and rng.random() < 0.9 else rng.randrange(NDS)
                 r, key = of_kind("RUN"), rng.randrange(NKEY)
             op = ["Put", d, r, key]
-        elif x < 0.40:
+        elif x < 0.335:
+            # one file ingested for two refs (a shared artifact); mostly two free ids and two free data IDs of one type,
+            # sometimes an id the registry still has (re-ingest of an unstored dataset) or one the datastore holds (refused)
+            r = of_kind("RUN", bad=0.05)
+            keys = [kk for kk in range(NKEY) if (r, kk) not in g.ds.values() and (r, sib(kk)) not in g.ds.values()]
+            key = rng.choice(keys) if keys and rng.random() < 0.9 else rng.randrange(NKEY)
+            free = [i for i in range(NDS) if i not in g.ds]
+            pair = rng.sample(free, 2) if len(free) >= 2 and rng.random() < 0.85 else [rng.randrange(NDS), rng.randrange(NDS)]
+            y = rng.random()
+            if y < 0.2 and g.ds:
+                d = rng.choice(sorted(g.ds))
+                if g.ds[d][0] == r or rng.random() < 0.7:
+                    r, key = g.ds[d]
+                pair[0] = d
+                if pair[1] == d and free:
+                    pair[1] = free[0]
+            op = ["Ingest", pair[0], pair[1], r, key]
+        elif x < 0.42:
             op = ["Tag", of_kind("TAGGED"), some_ds(rng.choice([1, 1, 2, 3]), live=0.93)]
-        elif x < 0.44:
+        elif x < 0.455:
             b = rng.randrange(0, 8)
             op = ["Certify", of_kind("CALIB"), some_ds(1, live=0.95)[0], b, b + rng.randrange(1, 5)]
         elif x < 0.74:
@@ -199,15 +235,17 @@ def gen_history(rng: random.Random, length: int):
             if n == 2 and rs[0] == rs[1] and rng.random() < 0.7:
                 rs = rs[:1]
             op = ["RemoveRuns", rs, 1 if rng.random() < 0.75 else 0]
-        elif x < 0.87:
+        elif x < 0.865:
             if g.ds and rng.random() < 0.85:
                 r, key = g.ds[rng.choice(sorted(g.ds))]
             else:
                 r, key = rng.randrange(NCOLL), rng.randrange(NKEY)
             op = ["ExtDelete", r, key]
-        elif x < 0.91:
+        elif x < 0.895:
             op = ["Trash", some_ds(rng.choice([1, 1, 2]))]
-        elif x < 0.94:
+        elif x < 0.92:
+            op = ["Trash1", some_ds(1, live=0.9)[0]]
+        elif x < 0.945:
             op = ["EmptyTrash"]
         else:
             op = ["RegRemove", some_ds(rng.choice([1, 1, 2]))]
@@ -231,6 +269,10 @@ def _vec(obs, d):
         "row": [r for r in obs["raw_ds"] if r[0] == d], "loc": d in obs["raw_loc"], "trash": d in obs["raw_trash"],
         "recs": rec, "artifact": art,
     }
+
+
+# observables that say whether artifacts are present (and nothing about tables)
+ARTIFACT_KEYS = {"files", "exists", "many", "stored", "stored_many", "readable", "carried"}
 
 
 def _snapshot(obs):
@@ -329,7 +371,11 @@ def check_history(ctx: Ctx, hist, steps, origin):
                 fail("get_dataset-vs-registry", i, f"get_dataset disagrees with the dataset table for dataset {d}")
             if "readable" in obs and d not in pending:
                 rd = obs["readable"][d]
-                if truth == [1, 1, 1] and rd != 1:
+                # (the second ref of a two-ref ingest has records naming the artifact of the FIRST ref; when that one is put again
+                # the shared file is rewritten and the size recorded for the second ref no longer matches: get() refuses.  Whether
+                # a put may rewrite a shared artifact is C09's subject; here readability is demanded of a dataset's own artifact)
+                own = any([d] + r[1:] in obs.get("defs", [[d] + r[1:]]) for r in rec)
+                if truth == [1, 1, 1] and rd != 1 and own:
                     fail("exists-but-unreadable", i, f"dataset {d} is reported RECORDED|DATASTORE|_ARTIFACT but get() {'returned another payload' if rd == 2 else 'failed'}")
                 if truth[2] == 0 and rd != 0:
                     fail("readable-but-absent", i, f"dataset {d} has no artifact according to the reports but get() returned something")
@@ -386,8 +432,17 @@ def check_history(ctx: Ctx, hist, steps, origin):
             if not ok:
                 if _snapshot(prev) != _snapshot(obs):
                     diff = [k for k in obs if k != "probe_errors" and obs[k] != prev.get(k)]
-                    fail("refused-op-changed-state", i, f"{opkind(op)} was refused with {out} but an observable changed", diff,
-                         d=op[1] if op[0] == "Put" and diff == ["files"] else None)
+                    held = op[0] == "Ingest" and any(d in prev["raw_loc"] or any(r[0] == d for r in prev["raw_recs"]) for d in op[1:3])
+                    if held and out == "Err:Conflict" and "files" in diff and set(diff) <= ARTIFACT_KEYS and \
+                            [f for f in prev["files"] if f not in obs["files"]] == [[op[3], op[4]]] and all(f in prev["files"] for f in obs["files"]):
+                        # /repo finding F-C01-reingest seen from C10: the ingest of an id the datastore already knows is refused
+                        # after the file was copied over the artifact of its first ref; the rollback removes that file
+                        fail("refused-reingest-destroyed-artifact", i,
+                             f"{opkind(op)} of a dataset the datastore already holds was refused with {out} but the artifact at the "
+                             f"ingest target {[op[3], op[4]]} was overwritten and then deleted by the rollback", diff)
+                    else:
+                        fail("refused-op-changed-state", i, f"{opkind(op)} was refused with {out} but an observable changed", diff,
+                             d=op[1] if op[0] == "Put" and diff == ["files"] else None)
             k = op[0]
             targets = None
             mode = None
@@ -434,6 +489,8 @@ def check_history(ctx: Ctx, hist, steps, origin):
                 targets, mode = set(prev["raw_trash"]), "emptytrash"      # only datasets pending in the trash may be touched
             elif k == "Trash" and ok:
                 targets, mode = set(op[1]), "trash"
+            elif k == "Trash1" and ok:
+                targets, mode = {op[1]}, "trash"
             if ok and k not in ("Prune", "RemoveRuns", "RegRemove", "RegColl") and sorted(pcolls.items()) != sorted(colls.items()):
                 fail("collections-changed", i, f"{k} changed the set of collections")
             if targets is not None:
@@ -504,6 +561,10 @@ def check_history(ctx: Ctx, hist, steps, origin):
                 d = op[1]
                 if obs["exists"][d][:3] != [1, 1, 1]:
                     fail("put-not-visible", i, f"after a successful put dataset {d} is reported {obs['exists'][d]}")
+            if ok and k == "Ingest":
+                for d in op[1:3]:
+                    if obs["exists"][d][:3] != [1, 1, 1] or obs["many"][d][:3] != [1, 1, 1]:
+                        fail("ingest-not-visible", i, f"after a successful two-ref ingest dataset {d} is reported {obs['exists'][d]} / {obs['many'][d]}")
         prev = obs
         if failed:
             break
@@ -571,6 +632,10 @@ def cop(op):
         return "EmptyTrash"
     if k == "RegRemove":
         return f"RegRemove {nl(op[1])}"
+    if k == "Trash1":
+        return f"Trash1 {op[1]}"
+    if k == "Ingest":
+        return f"Ingest {op[1]} {op[2]} {op[3]} {op[4]}"
     raise ValueError(op)
 
 
@@ -614,6 +679,101 @@ def execute(ctx: Ctx, hists, chunk=2, timeout=900):
         else:
             out.extend(x["steps"] for x in r)
     return out
+
+
+# =================================================================================================
+# replay shrinker: greedy removal of operations, every candidate re-run on the IMPLEMENTATION and re-judged by the oracle
+# =================================================================================================
+class _Probe:
+    """Just enough of Ctx for check_history: collects oracle failures and applies the same known-finding filter."""
+
+    def __init__(self, known):
+        self.known, self.oracle_failures = known, []
+
+    def count(self, n=1):
+        pass
+
+    def hist(self, *a, **k):
+        pass
+
+    def oracle_fail(self, signature, replay, what=""):
+        for k in self.known:
+            if k.get("status", "known") == "known" and re.fullmatch(k["signature"], signature):
+                return
+        self.oracle_failures.append((signature, dict(replay, what=what, signature=signature)))
+
+
+def _still_fails(known, sig, hists, timeout=600):
+    """Run the candidate histories on the implementation; per candidate the replay dict of an oracle failure with exactly the
+    signature `sig` (its history truncated at the failing step) or None."""
+    payloads = [{"histories": [h], "ncoll": NCOLL, "nds": NDS, "full": True} for h in hists]
+    res = parallel_workers("c10_impl", "run_histories", payloads, timeout=timeout) if hists else []
+    out = []
+    for h, (status, r) in zip(hists, res):
+        hit = None
+        if status == "ok":
+            p = _Probe(known)
+            check_history(p, h, r[0]["steps"], "shrink")
+            hit = next((rep for s_, rep in p.oracle_failures if s_ == sig), None)
+        out.append(hit)
+    return out
+
+
+def shrink_history(known, sig, hist, budget=150.0, log=lambda m: None):
+    """Greedy one-operation removal.  Round: every single removal is tried (in parallel); all operations that are removable on
+    their own are removed together when the failure survives that, otherwise one at a time from the end.  Stops at a history
+    from which no single operation can be removed (1-minimal) or when the wall budget is used up.
+    -> (replay dict of the smallest failing history found or None, number of implementation runs)"""
+    t0, cur, best, runs = time.time(), list(hist), None, 0
+    while len(cur) > 1 and time.time() - t0 < budget:
+        cands = [cur[:j] + cur[j + 1:] for j in range(len(cur) - 1)]          # the last operation is the failing one: kept
+        hits = _still_fails(known, sig, cands)
+        runs += len(cands)
+        rem = [j for j, h in enumerate(hits) if h is not None]
+        if not rem:
+            break
+        hit = hits[rem[0]]
+        if len(rem) > 1:
+            both = _still_fails(known, sig, [[op for j, op in enumerate(cur) if j not in rem]])[0]
+            runs += 1
+            if both is not None:
+                hit = both
+            else:
+                for j in sorted(rem[1:], reverse=True):                        # not together: one at a time, from the end
+                    if time.time() - t0 >= budget:
+                        break
+                    h1 = hit["history"]
+                    if j - 1 >= len(h1) - 1:
+                        continue
+                    # `hit` is cur without rem[0] (truncated); index j of cur is index j - 1 there
+                    nxt = _still_fails(known, sig, [h1[:j - 1] + h1[j:]])[0]
+                    runs += 1
+                    if nxt is not None:
+                        hit = nxt
+        best, cur = hit, hit["history"]
+        log(f"shrink {sig}: {len(hist)} -> {len(cur)} ops after {runs} runs")
+    return best, runs
+
+
+def shrink_failures(ctx: Ctx, budget):
+    done = set()
+    t0 = time.time()
+    for sig, rep in ctx.oracle_failures:
+        if sig in done or sig.startswith("worker-") or not isinstance(rep.get("history"), list) or len(done) >= 2:
+            continue
+        done.add(sig)
+        left = budget - (time.time() - t0)
+        if left <= 5:
+            break
+        n0 = len(rep["history"])
+        best, runs = shrink_history(ctx.known, sig, rep["history"], left, ctx.log)
+        if best is not None and len(best["history"]) < n0:
+            for k_ in ("history", "step", "op", "outcome", "detail", "what"):
+                rep[k_] = best[k_]
+        rep["shrunk"] = {"from_ops": n0, "to_ops": len(rep["history"]), "implementation_runs": runs,
+                         "one_minimal": bool(time.time() - t0 < budget)}
+    if done:
+        ctx.cov["shrinker"] = f"{len(done)} failing histories shrunk by greedy operation removal on the implementation"
 
 
 def load_own_known(ctx: Ctx):
@@ -711,3 +871,6 @@ def run(ctx: Ctx):
             if steps is not None:
                 check_history(ctx, h, steps, f"search/{k}")
         ctx.cov["search"] = f"{len(extra)} further histories of 40 ops on the implementation; oracle failures found: {len(ctx.oracle_failures)}"
+
+    if ctx.oracle_failures and not ctx.replay:
+        shrink_failures(ctx, 150.0 if ctx.quick else 600.0)
